@@ -76,9 +76,12 @@ func (c *Consistent) pick(sessions *sync.Map, key string) getty.Session {
 	}
 	c.RUnlock()
 
-	if session.IsClosed() {
+	// the ring is built once and refreshed lazily: the session it names may have been closed or
+	// released from the registry since. Never hand out such a session (nor the ring's first entry,
+	// which is just as stale): rebuild the ring and choose among the registered open sessions.
+	if _, registered := sessions.Load(session); !registered || session.IsClosed() {
 		go c.refreshHashCircle(sessions)
-		return c.firstKey()
+		return RandomLoadBalance(sessions, key)
 	}
 
 	return session
